@@ -8,6 +8,7 @@ Cases (JSON dicts, bytes as hex) executed by `check_case` against the REAL libra
   handwritten  algorithm x str secret x format: a file written WITHOUT the library (json / yaml / pickle / bson /
                literal xml) that carries the plaintext is hashed on load
   default      default given as plaintext str or as DigestValue
+  handwritten  also: plaintext STRINGS that look like a stored 'salt:digest' pair must be hashed as plaintexts
 """
 import base64
 import hashlib
@@ -72,6 +73,14 @@ def _leaks(obj, needle, depth=0):
     if isinstance(obj, (list, tuple, set, frozenset)):
         return any(_leaks(x, needle, depth + 1) for x in obj)
     return False
+
+
+def _is_b64(text):
+    try:
+        base64.b64decode(text, validate=True)
+        return True
+    except Exception:  # noqa: BLE001
+        return False
 
 
 def _searchable(pb):
@@ -240,6 +249,9 @@ def check_case(tmp, case):
         schema = _schema(alg)
         variant = case.get("variant")
         wk = "%s|%s%s" % (cls, fmt, "|" + variant if variant else "")
+        looks = cls.startswith("plaintext-looks-like-digest:")
+        if looks:
+            wk = cls
         content = _handwritten(fmt, p, variant)
         with open(fname, "wb") as fp:
             fp.write(content)
@@ -259,6 +271,13 @@ def check_case(tmp, case):
                 continue
             salts.append(v.salt)
             _check_challenges(bad, wk, v, p, others, path + " loaded from plaintext")
+            if looks:
+                # the string must have been hashed as a plaintext, not taken apart into salt and digest
+                halves = [base64.b64decode(h) if _is_b64(h) else None for h in p.split(":", 1)] if ":" in p else []
+                if len(halves) == 2 and halves[1] and (v.digest == halves[1] or (halves[0] and v.salt == halves[0])):
+                    bad(O_HAND, wk, "[%s] %s: the string was parsed as a stored salt:digest pair" % (fmt, path))
+                if _searchable(pb) and (pb in str(v).encode() or pb in repr(tuple(v)[:2]).encode()):
+                    bad(O_MEM, wk, "[%s] %s: the hand-written string is the text form of the in-memory value" % (fmt, path))
         if len(set(salts)) != len(salts):
             bad(O_SALT, wk, "plaintexts hashed on load share a salt")
         if _searchable(pb):
@@ -267,7 +286,13 @@ def check_case(tmp, case):
             for f2 in FORMATS:
                 out, e = _call(cfg.dumps, f2)
                 if e is None and pb in out:
-                    bad(O_SER, "%s|%s|after-handwritten" % (cls, f2), "plaintext written back by dumps(%s)" % f2)
+                    bad(O_SER, wk if looks else "%s|%s|after-handwritten" % (cls, f2),
+                        "plaintext written back by dumps(%s)" % f2)
+                if e is None and looks and ":" in p:
+                    for half in p.split(":", 1):
+                        if len(half) >= 12 and half.encode() in out:
+                            bad(O_SER, wk, "a half of the hand-written string (%s...) is written back by dumps(%s): "
+                                "it was stored as salt or digest" % (half[:12], f2))
     elif kind == "default":
         algo = getattr(hashlib, alg)
         wk = "%s|%s" % (cls, case["as"])
@@ -374,7 +399,41 @@ def _others(p, pool, first=()):
     return out
 
 
+def _digest_lookalikes(rng, alg):
+    """(kind, plaintext string, other secrets that must be refused) - strings a careless loader could mistake for a
+    stored 'salt:digest' pair; every one of them is a PLAINTEXT and has to be hashed on load"""
+    import hashlib as H
+    ds = ALGS[alg]
+    rb = lambda n: bytes(rng.getrandbits(8) for _ in range(n))  # noqa: E731
+    b64 = lambda b: base64.b64encode(b).decode()  # noqa: E731
+    out = []
+    for nx in (0, 1, ds, ds + 1):
+        x, y = rb(nx), rb(ds)
+        out.append(("b64:b64-digest-size-salt-%s" % {0: "0", 1: "1", ds: "digest-size", ds + 1: "digest-size+1"}[nx],
+                    b64(x) + ":" + b64(y), [y, x + y, b64(y)]))
+    for ny in (ds - 1, ds + 1, 3):
+        x, y = rb(ds), rb(ny)
+        out.append(("b64:b64-digest-length-%s" % {ds - 1: "minus-1", ds + 1: "plus-1", 3: "3"}[ny],
+                    b64(x) + ":" + b64(y), [y, b64(y)]))
+    out.append(("colon-alone", ":", ["", "::", b""]))
+    out.append(("a-colon-b", "a:b", ["a", "b", "ab", "a:b:"]))
+    out.append(("two-colons", "a:b:c", ["a:b", "b:c", "a"]))
+    x, y, z = rb(ds), rb(ds), rb(ds)
+    out.append(("two-colons-b64", b64(x) + ":" + b64(y) + ":" + b64(z), [b64(x) + ":" + b64(y), y, z]))
+    other = "the other secret %d" % rng.randrange(10 ** 6)
+    salt = rb(ds)
+    dg = H.new(alg, salt + other.encode()).digest()
+    out.append(("str-of-digest-of-another-secret", b64(salt) + ":" + b64(dg), [other, other.encode(), dg]))
+    return out
+
+
 def gen_cases(rng, tier):
+    for alg in ALGS:
+        for kind, text, refused in _digest_lookalikes(rng, alg):
+            for fmt in FORMATS:
+                yield {"kind": "handwritten", "alg": alg, "secret": _enc(text), "fmt": fmt,
+                       "others": [_enc(q) for q in refused + [text + " ", text[:-1], text.lower() + "x"]],
+                       "class": "plaintext-looks-like-digest:" + kind}
     pool = _secrets(rng, tier)
     norm = _norm_secrets()
     variants = {name: v for name, _, v in norm}
@@ -410,7 +469,9 @@ def rac(tier: str, seed: int) -> dict:
                    "NFD/NFKC/NFKD, challenged with all other spellings; bytes: empty, NUL, ascii, non-UTF-8, 3072 bytes; seeded random) "
                    "x 5 formats; hand-written files for every str secret x 5 formats built without the library (no NUL in XML), the empty "
                    "string also as yaml \"\", xml self-closing element and spaced json; absence "
-                   "clauses evaluated for secrets >= 6 bytes" % ((18 if tier == "quick" else 38) + len(_norm_secrets())),
+                   "clauses evaluated for secrets >= 6 bytes; per algorithm 12 hand-written STRINGS that look like a stored digest "
+                   "(b64(x):b64(y) with len(y) = digest size and len(x) in 0/1/ds/ds+1, other lengths, ':', 'a:b', two "
+                   "colons, str() of the DigestValue of another secret) x 5 formats" % ((18 if tier == "quick" else 38) + len(_norm_secrets())),
                    tier=tier, seed=seed)
     with sandbox() as tmp:
         n = 0
